@@ -59,6 +59,49 @@ def _ordered_iter(it):
     return False
 
 
+def check_marks_carried(report, sw, ent, rule):
+    """A copy of the wrapped strategy's utility rows into the array that is returned is a plain column
+    selection `new[:, idx] = inner[:, idx]`: an element-wise filter on the values (boolean mask over
+    the matrix, `~np.isnan(inner)`) would leave the pre-filled -inf where the inner rows are NaN, i.e.
+    at the samples selected in earlier steps."""
+    inner = set()
+    for n in ast.walk(sw.node):
+        if isinstance(n, ast.Assign) and isinstance(n.value, ast.Call) and isinstance(n.value.func, ast.Attribute) \
+                and n.value.func.attr == "query" and isinstance(n.targets[0], (ast.Tuple, ast.List)) \
+                and len(n.targets[0].elts) == 2 and isinstance(n.targets[0].elts[1], ast.Name):
+            inner.add(n.targets[0].elts[1].id)
+    outs = {n.targets[0].id for n in ast.walk(sw.node) if isinstance(n, ast.Assign) and len(n.targets) == 1
+            and isinstance(n.targets[0], ast.Name) and isinstance(n.value, ast.Call) and isinstance(n.value.func, ast.Attribute)
+            and n.value.func.attr == "query"}
+    for n in ast.walk(sw.node):
+        if isinstance(n, ast.Assign) and isinstance(n.value, ast.Name) and n.value.id in outs \
+                and isinstance(n.targets[0], (ast.Tuple, ast.List)) and len(n.targets[0].elts) == 2 \
+                and isinstance(n.targets[0].elts[1], ast.Name):
+            inner.add(n.targets[0].elts[1].id)
+    if not inner:
+        raise AnalysisError("SubSamplingWrapper.query: the wrapped strategy's utilities are not bound to a name")
+    # names the inner utilities are rebound to (`utilities = new_utilities`)
+    for _ in range(3):
+        for n in ast.walk(sw.node):
+            if isinstance(n, ast.Assign) and len(n.targets) == 1 and isinstance(n.targets[0], ast.Name) \
+                    and isinstance(n.value, ast.Name) and n.value.id in inner | {t for t in inner}:
+                inner.add(n.targets[0].id)
+    for n in ast.walk(sw.node):
+        if not (isinstance(n, ast.Assign) and isinstance(n.targets[0], ast.Subscript) and isinstance(n.value, ast.Subscript)
+                and isinstance(n.value.value, ast.Name) and n.value.value.id in inner):
+            continue
+        t, v = n.targets[0], n.value
+
+        def _full(x):
+            return isinstance(x, ast.Slice) and x.lower is None and x.upper is None and x.step is None
+        plain = isinstance(t.slice, ast.Tuple) and isinstance(v.slice, ast.Tuple) and len(t.slice.elts) == 2 \
+            and len(v.slice.elts) == 2 and _full(t.slice.elts[0]) and _full(v.slice.elts[0])
+        report.add(rule, ent, f"`{norm_stmt(n, 70)}` transfers the NaN marks of the inner rows", f"{sw.file}:{n.lineno}", plain,
+                   detail="whole columns are copied" if plain else
+                   "the copy is filtered element-wise (boolean mask over the matrix): where the inner rows are NaN - the "
+                   "samples selected in earlier steps - the returned rows keep their pre-filled value instead of NaN")
+
+
 def kwmap(call):
     return {k.arg: k.value for k in call.keywords if k.arg}
 
@@ -130,6 +173,20 @@ def run(p, report, tier):
             isinstance(k2.get("return_utilities"), ast.Name)
     report.add("R20.1", ent, "selection by simple_batch(utilities, self.random_state_, batch_size, return_utilities)",
                f"{pw.file}:{pw.node.lineno}", ok_sb)
+    # every way out of query goes through that selection: a shortcut that hands back the wrapped
+    # strategy's own output returns candidate-space utilities / indices
+    sb_names = {t.id for n in ast.walk(pw.node) if isinstance(n, ast.Assign) and isinstance(n.value, ast.Call)
+                and c01.callname(n.value) == "simple_batch" for tt in n.targets
+                for t in (tt.elts if isinstance(tt, (ast.Tuple, ast.List)) else [tt]) if isinstance(t, ast.Name)}
+    top_rets = [n for n in ast.walk(pw.node) if isinstance(n, ast.Return) and n.value is not None
+                and not c01._in_nested(pw.node, n)]
+    for r in top_rets:
+        okr = (isinstance(r.value, ast.Call) and c01.callname(r.value) == "simple_batch") or (
+            bool(names_in(r.value)) and names_in(r.value) <= sb_names)
+        report.add("R20.1", ent, f"`{norm_stmt(r, 50)}` returns the simple_batch selection", f"{pw.file}:{r.lineno}", okr,
+                   detail="result of simple_batch" if okr else
+                   "this return bypasses the scatter through the mapping and simple_batch: indices and utilities are in the "
+                   "space of the candidate rows, not of X")
     ff = c01.FnFacts(pw)
     before = len(report.obligations)
     c01.check_nan_discipline(p, report, pw, ff)
@@ -181,6 +238,7 @@ def run(p, report, tier):
                            detail="row-for-row" if okr else
                            "one row of the inner utilities is broadcast to all batch rows: later rows show numbers at "
                            "samples that were already selected")
+    check_marks_carried(report, sw, ent, "R20.2")
     check_subset_population(p, report, "R20.2")
     # ---------------- R20.3
     sa = p.get_class("SingleAnnotatorWrapper")
